@@ -20,7 +20,13 @@
                                   effective k, and the outer loops of Yen's algorithm (the `len() - 2`
                                   range and the `while accepted.len() < k` loop) over abstract spur searches
    Components the property quantifies over are function arguments: every input plugin
-   ([plugin]), the per-query search ([json -> res R]), every output plugin, the response sink. *)
+   ([plugin]), the per-query search ([json -> res R]), every output plugin, the response sink; the
+   f64 arithmetic of the load balancer is used through the interface [wops] (binary64 instance in
+   Model/PipelineRun.v, execution only).
+   State of /repo mirrored here (fix: commits): empty batch (451668c), degenerate grid sections
+   (58a440b), inject on a non-object (06993a7), ill-typed weight estimate (7f9ad24), json_array_flatten
+   echoes the offending element (e0aa2c2), non-object queries refused up front (80828c4), error
+   responses written to the sink (cecf7b8).  NOT fixed and modelled as it is: Yen's algorithm (D-YEN). *)
 From Coq Require Import ZArith String Ascii List Floats Bool Arith.
 From RC Require Import Base.Show Base.Res Base.Json.
 Import ListNotations.
